@@ -380,6 +380,19 @@ fn verify(m: &DumpModel, bytes: &[u8], be: bool, mem64: bool, tag: &'static str,
                     if g.bytes() != &w.bytes[..] {
                         v.bad("memory.bytes", format!("region {i} at {:#x}: bytes differ from the model", w.base));
                     }
+                    // the region itself answers for each of its own addresses - also the one that ends at 2^64 - and for
+                    // none outside (first byte, last byte, the byte before / after)
+                    let len = w.bytes.len() as u64;
+                    for (k, a) in [(0u64, w.base), (len - 1, w.base.wrapping_add(len - 1))] {
+                        if g.get_memory_at_address::<u8>(a) != Some(w.bytes[k as usize]) {
+                            v.bad("memory.region-own-byte", format!("region {:#x}+{len:#x}: get_memory_at_address::<u8>({a:#x}) = {:?}, model byte {:#x}", w.base, g.get_memory_at_address::<u8>(a), w.bytes[k as usize]));
+                        }
+                    }
+                    for a in [w.base.checked_sub(1), w.base.checked_add(len)].into_iter().flatten() {
+                        if g.get_memory_at_address::<u8>(a).is_some() {
+                            v.bad("memory.region-own-byte-outside", format!("region {:#x}+{len:#x} answers for {a:#x}", w.base));
+                        }
+                    }
                     v.ob(format!("memory[{i}]"), format!("{:x}+{:x}:{:016x}", g.base_address(), g.size(), hash_of(&g.bytes())));
                 }
             }
@@ -1297,7 +1310,11 @@ fn space_duplicates() -> Space {
         let cpu = if STREAM_KINDS[dup] == "system_info" { cpus[*order.last().unwrap()] } else { cpus[0] };
         let mk = |k: usize, v: usize| if STREAM_KINDS[k] == "system_info" { small(k, v, cpus[v], &cvs) } else { small(k, v, cpu, &cvs) };
         let singles: Vec<StreamM> = (0..12).filter(|k| *k != dup).map(|k| mk(k, 0)).collect();
-        let copies_v: Vec<StreamM> = order.iter().map(|v| mk(dup, *v)).collect();
+        let mut copies_v: Vec<StreamM> = order.iter().map(|v| mk(dup, *v)).collect();
+        // the text stream can be EMPTY (a directory entry of size 0): as the last copy it is the one served
+        if STREAM_KINDS[dup] == "linux_maps" && rot == 0 {
+            *copies_v.last_mut().unwrap() = StreamM::LinuxMaps(vec![]);
+        }
         let mut streams = vec![];
         if layout == 0 {
             // earlier copies first, the served one at the very end
